@@ -140,7 +140,8 @@ class Ctx:
             write_ndjson(f, parts[k])
             meta = self.work.path(f"meta-trace-{base}-{k}")
             r = tlc.run(SPEC / "trace" / (module + ".tla"), SPEC / "trace" / (module + ".cfg"), meta,
-                        workers=1, timeout=timeout, deadlock=False, env={"TRACE_FILE": str(f)})
+                        workers=1, timeout=timeout, deadlock=False, env={"TRACE_FILE": str(f)},
+                        jvm=["-Xmx3g", "-Xms256m"])      # up to 16 validators run side by side
             if not os.environ.get("VERIF_KEEP_WORK"):
                 try:
                     f.unlink()
